@@ -21,7 +21,7 @@ RULE = ('(program, pattern) pairs: program from G-CS1 / G-SYNTAX / corpus; patte
         'may swap -, one identifier per _var_, __expr__ bound to the paired subtree, match_root = partner of the pattern '
         'root); (d) must return no match. Non-trivial: the pattern has >= 3 concrete nodes and >= 1 match was returned, or it '
         'is a (b)/(d) near miss. Distinct = SHA-1 of the JSON case.')
-ASSUMPTIONS = ['Expr statement wrappers and Module roots are transparent (a one-statement pattern is trimmed to its expression and '
+ASSUMPTIONS = ['(the constant None is a literal like any other: only *absent* optional fields are unconstrained) ', 'Expr statement wrappers and Module roots are transparent (a one-statement pattern is trimmed to its expression and '
                'may sit inside any statement) and "pass" is a wildcard: pedal documents both in code',
                'a pattern field whose value is None leaves that field unconstrained (pedal: "if ins_value is None: continue")',
                'ctx nodes are ignored; literal equality is by type and value (C08 needs the type part)']
@@ -168,7 +168,10 @@ def mutate_pattern(pattern, mutation, index, program):
         if not consts:
             return None
         t = consts[index % len(consts)]
-        t.value = (t.value + 1) if isinstance(t.value, (int, float)) else (t.value + 'x')
+        if index % 4 == 3:
+            t.value = None          # a near miss that is the literal None
+        else:
+            t.value = (t.value + 1) if isinstance(t.value, (int, float)) else (t.value + 'x')
     elif mutation == 'literal-type':
         consts = [n for n in nodes if isinstance(n, ast.Constant) and type(n.value) in (int, float, bool)]
         if not consts:
@@ -278,6 +281,11 @@ def check_match(m, viol, desc):
             viol.append(V('C10|kind-mismatch|%s' % type(pa).__name__, '%s: pattern %s node paired with student %s node' % (desc, type(pa).__name__, type(sa).__name__)))
             return
         for field, pv in ast.iter_fields(pa):
+            if isinstance(pa, ast.Constant) and field == 'value' and pv is None:
+                if getattr(sa, 'value', 0) is not None:      # the literal None: not an absent field
+                    viol.append(V('C10|content-mismatch|Constant.value', '%s: pattern literal None paired with student value %r' % (desc, getattr(sa, 'value', None))))
+                    return
+                continue
             if field in ('ctx', 'type_comment', 'kind') or pv is None:
                 continue
             sv = getattr(sa, field, None)
